@@ -334,7 +334,7 @@ class TreeBuilder(object):
     def insertElementTable(self, token):
         """Create an element and insert it into the tree"""
         element = self.createElement(token)
-        if self.openElements[-1].name not in tableInsertModeElements:
+        if not self._currentNodeIsTablePart():
             return self.insertElementNormal(token)
         else:
             # We should be in the InTable mode. This means we want to do
@@ -352,15 +352,20 @@ class TreeBuilder(object):
         if parent is None:
             parent = self.openElements[-1]
 
-        if (not self.insertFromTable or (self.insertFromTable and
-                                         self.openElements[-1].name
-                                         not in tableInsertModeElements)):
+        if not self.insertFromTable or not self._currentNodeIsTablePart():
             parent.insertText(data)
         else:
             # We should be in the InTable mode. This means we want to do
             # special magic element rearranging
             parent, insertBefore = self.getTableMisnestedNodePosition()
             parent.insertText(data, insertBefore)
+
+    def _currentNodeIsTablePart(self):
+        """Is the current node one of the (HTML) elements whose children are
+        foster parented?"""
+        node = self.openElements[-1]
+        return (node.name in tableInsertModeElements and
+                node.namespace == namespaces["html"])
 
     def getTableMisnestedNodePosition(self):
         """Get the foster parent element, and sibling to insert before
